@@ -103,79 +103,100 @@ def run(prog, chk, fs):
                 init.env.pop("this->" + x, None)
         sin, sat = ai.run(init)
         havoc_seen = False
+        verdicts = {}      # (order, key) -> list of ("ok"|"bad"|"triv", args) over the disjuncts reaching the site
+
+        def V_(key, kind, *args):
+            verdicts.setdefault(key, []).append((kind, args))
+        order = 0
         for b in sorted(f.blocks):
             blk = f.blocks[b]
             for i, e in enumerate(blk["el"]):
-                st = sat.get((b, i))
-                if st is None or not isinstance(e, int):
+                sts = sat.get((b, i))
+                if not sts or not isinstance(e, int):
                     continue
-                if "__havoc__" in st.env:
-                    havoc_seen = True
-                n = f.nodes[e]
-                s2 = st.copy()
-                for what, dst, cnt in obligations(ai, s2, f, e):
+                order += 1
+                for st in sts:
                     if "__havoc__" in st.env:
-                        chk.note("%s: %s after a call to another mutating member is not decided (callee post-condition not modelled)" % (f.sig, what))
-                        continue
-                    proved = None
-                    for goals, region in region_goals(ai, s2, dst, cnt):
-                        if all(s2.proves(g) for g in goals):
-                            proved = region
-                            break
-                    if proved:
-                        chk.ok(rid, f, what, f.where(e), "inside " + proved, evals=2)
-                    else:
-                        chk.bad(rid, f, "write-not-proved-in-bounds:" + q.no_casts(f.r(n["c"][1]))[:40] + "," + q.no_casts(f.r(n["c"][3]))[:40], f.where(e),
-                                "%s cannot be shown to stay inside the owned block or the freshly allocated block from the guards on this path "
-                                "(facts: buffer %s)" % (what, {True: "non-null", False: "null", None: "unknown"}[st.facts.get("this->buffer")]))
-                # terminator stores
-                if n["k"] == "BinaryOperator" and n["op"] == "=" and f.r(n["c"][0]) == "*this->bufferEnd" and "__havoc__" not in st.env:
+                        havoc_seen = True
+                    n = f.nodes[e]
                     s2 = st.copy()
-                    end = s2.env.get("this->bufferEnd")
-                    ok = None
-                    if end is not None:
-                        for bsym, size in ai.alloc.items():
-                            B = Lin.var(bsym)
-                            if s2.proves(end - B) and s2.proves(B + size - Lin.const(1) - end):
-                                ok = "fresh block"
-                        if ok is None and s2.facts.get("this->buffer") is True:
-                            B, cap = s2.env.get("this->buffer"), s2.env.get("this->_capacity")
-                            if s2.proves(end - B) and s2.proves(B + cap - end):
-                                ok = "owned block (index <= _capacity, the block has _capacity + 1 bytes)"
-                        if ok is None and s2.facts.get("this->buffer") is False and end == Lin.var("&this->_capacity"):
-                            ok = "the inline dummy (&_capacity) of a non-owning buffer"
-                    if ok:
-                        chk.ok(rid, f, "terminator store at line %s" % n["l"], f.where(e), "inside " + ok, evals=2)
-                    elif s2.facts.get("this->buffer") is None:
-                        # ownership unknown here (e.g. removeBack on an attached buffer writes inside the attached range): decided only for owned
-                        chk.ok(rid, f, "terminator store at line %s (ownership unknown)" % n["l"], f.where(e),
-                               "not an owned-block obligation on this path", nontrivial=False)
-                    else:
-                        chk.bad(rid, f, "terminator-not-proved-in-bounds", f.where(e),
-                                "the zero store through bufferEnd cannot be shown to hit the owned block's reserved byte or data area")
+                    for what, dst, cnt in obligations(ai, s2, f, e):
+                        if "__havoc__" in st.env:
+                            chk.note("%s: %s after a call to another mutating member is not decided (callee post-condition not modelled)" % (f.sig, what))
+                            continue
+                        proved = None
+                        for goals, region in region_goals(ai, s2, dst, cnt):
+                            if all(s2.proves(g) for g in goals):
+                                proved = region
+                                break
+                        if proved:
+                            V_((order, e, "w"), "ok", what, f.where(e), "inside " + proved)
+                        else:
+                            V_((order, e, "w"), "bad", "write-not-proved-in-bounds:" + q.no_casts(f.r(n["c"][1]))[:40] + "," + q.no_casts(f.r(n["c"][3]))[:40], f.where(e),
+                               "%s cannot be shown to stay inside the owned block or the freshly allocated block from the guards on this path "
+                               "(facts: buffer %s)" % (what, {True: "non-null", False: "null", None: "unknown"}[st.facts.get("this->buffer")]))
+                    # terminator stores
+                    if n["k"] == "BinaryOperator" and n["op"] == "=" and f.r(n["c"][0]) == "*this->bufferEnd" and "__havoc__" not in st.env:
+                        s2 = st.copy()
+                        end = s2.env.get("this->bufferEnd")
+                        ok = None
+                        if end is not None:
+                            for bsym, size in ai.alloc.items():
+                                B = Lin.var(bsym)
+                                if s2.proves(end - B) and s2.proves(B + size - Lin.const(1) - end):
+                                    ok = "fresh block"
+                            if ok is None and s2.facts.get("this->buffer") is True:
+                                B, cap = s2.env.get("this->buffer"), s2.env.get("this->_capacity")
+                                if s2.proves(end - B) and s2.proves(B + cap - end):
+                                    ok = "owned block (index <= _capacity, the block has _capacity + 1 bytes)"
+                            if ok is None and s2.facts.get("this->buffer") is False and end == Lin.var("&this->_capacity"):
+                                ok = "the inline dummy (&_capacity) of a non-owning buffer"
+                        if ok:
+                            V_((order, e, "t"), "ok", "terminator store at line %s" % n["l"], f.where(e), "inside " + ok)
+                        elif s2.facts.get("this->buffer") is None:
+                            # ownership unknown here (e.g. removeBack on an attached buffer writes inside the attached range): decided only for owned
+                            V_((order, e, "t"), "triv", "terminator store at line %s (ownership unknown)" % n["l"], f.where(e),
+                               "not an owned-block obligation on this path")
+                        else:
+                            V_((order, e, "t"), "bad", "terminator-not-proved-in-bounds", f.where(e),
+                               "the zero store through bufferEnd cannot be shown to hit the owned block's reserved byte or data area")
         # exit invariant
         exits = []
         for pb in f.preds.get(f.exit, []):
             stp = sat.get((pb, len(f.blocks[pb]["el"])))
-            if stp is not None:
-                exits.append((pb, stp))
+            for st in (stp or ()):
+                exits.append((pb, st))
         for pb, st in exits:
             if f.kind == "dtor" or havoc_seen or f.short in ("attach",):
                 break
             s2 = st.copy()
             B, S, E, cap = (s2.env.get("this->" + x) for x in F)
             own = s2.facts.get("this->buffer")
+            key = (10 ** 6 + pb, pb, "x")
             if None in (B, S, E, cap):
                 chk.note("%s: exit state incomplete, invariant not checked" % f.sig)
             elif own is True or (B is not None and any(B == Lin.var(b) for b in ai.alloc)):
                 bad = [g for g in inv_owned(B, S, E, cap) if not s2.proves(g)]
                 if not bad:
-                    chk.ok(rid, f, "exit via block B%d: buffer <= bufferStart <= bufferEnd <= buffer + _capacity" % pb, "%s:%s" % (f.file, f.line), "entailed at the end of the exiting block", evals=4)
+                    V_(key, "ok", "exit via block B%d: buffer <= bufferStart <= bufferEnd <= buffer + _capacity" % pb, "%s:%s" % (f.file, f.line), "entailed at the end of the exiting block")
                 else:
-                    chk.bad(rid, f, "exit-invariant-not-restored", _last_line(f, pb),
-                            "at the exit the window [bufferStart, bufferEnd] cannot be shown to lie in [buffer, buffer + _capacity] (violated: %s)" % bad[:2])
+                    V_(key, "bad", "exit-invariant-not-restored", _last_line(f, pb),
+                       "at the exit the window [bufferStart, bufferEnd] cannot be shown to lie in [buffer, buffer + _capacity] (violated: %s)" % bad[:2])
             else:
-                chk.ok(rid, f, "exit: ownership differs between paths, invariant checked per terminator/copy site", "%s:%s" % (f.file, f.line), "", nontrivial=False)
+                V_(key, "triv", "exit: ownership differs between paths, invariant checked per terminator/copy site", "%s:%s" % (f.file, f.line), "")
+        # one verdict per site: it holds when it holds in every disjunct that reaches the site
+        for key in sorted(verdicts, key=lambda k: (k[0], str(k[1]), k[2])):
+            vs = verdicts[key]
+            bads = [a for k_, a in vs if k_ == "bad"]
+            if bads:
+                chk.bad(rid, f, *bads[0])
+            else:
+                oks = [a for k_, a in vs if k_ == "ok"]
+                if oks:
+                    chk.ok(rid, f, oks[0][0], oks[0][1], oks[0][2] + (" (%d disjuncts)" % len(vs) if len(vs) > 1 else ""), evals=2 * len(vs))
+                else:
+                    a = vs[0][1]
+                    chk.ok(rid, f, a[0], a[1], a[2], nontrivial=False)
 
 
 def _last_line(f, b):
